@@ -9,6 +9,17 @@ props = sys.argv[3] if len(sys.argv) > 3 else m["property"]
 o = subprocess.run([sys.executable, os.path.join(VERIF, "tools", "selftest.py"), "--patch", os.path.join(d, "patch.diff"), "--props", props],
                    capture_output=True, text=True, cwd=VERIF).stdout
 lines = [l for l in o.splitlines() if l.split(" ")[0] in ("CAUGHT", "MISSED", "ERROR", "PATCH-FAILED")]
+if m.get("kind") == "neutral":
+    # a behaviour-preserving rewrite: the checks must stay silent
+    if not m.get("initially_false_alarm"):
+        m["first_run_checks"] = m.get("checks")
+    m["initially_false_alarm"] = True
+    m["checks"] = lines
+    m["false_alarm"] = any(l.startswith(("CAUGHT", "ERROR")) for l in lines)
+    m["correction"] = what
+    json.dump(m, open(os.path.join(d, "meta.json"), "w"), indent=1)
+    print(sid, "false_alarm =", m["false_alarm"], lines)
+    sys.exit(0)
 if not m.get("initially_missed"):
     m["first_run_checks"] = m.get("checks")
 m["initially_missed"] = True
